@@ -48,7 +48,14 @@ Clauses(S, o) ==
      <<"singletons", o.single = SingletonsOf(S)>>,
      <<"empty", o.empty = EmptyOf(S)>>,
      <<"maximal", o.max = MaximalOf(S, FALSE)>>,
-     <<"subviews", LET b == o.sub IN Len(b) = 10 /\
+     <<"attrs.edges", o.eattrs = <<>> \/
+          o.eattrs[2] = [k \in DOMAIN S.edges |-> <<S.edges[k], AttrScalar(S.eattr[S.edges[k]], 1, o.eattrs[1])>>]>>,
+     <<"filterby_attr.edges", \A k \in DOMAIN o.efattr :
+          o.efattr[k][5] = SelectSeq(S.edges, LAMBDA e : LET x == AttrScalar(S.eattr[e], 1, o.efattr[k][4])
+                                                        IN x # Absent /\ x # -1000 /\ Cmp(o.efattr[k][1], x, o.efattr[k][2], o.efattr[k][3]))>>,
+     <<"subviews", LET b == o.sub IN Len(b) = 11 /\
+          /\ b[11][1] = SelectSeq(b[5], LAMBDA e : SizeOf(S, e) = 1) /\ b[11][2] = SelectSeq(b[5], LAMBDA e : SizeOf(S, e) = 0)
+          /\ b[11][3] = SelectSeq(b[2], LAMBDA n : S.n2e[n] = {}) /\ b[11][4] = b[11][1]
           /\ b[9][2] = SelectSeq(b[2], LAMBDA n : Degree(S, n) >= b[9][1])
           /\ b[10][2] = SelectSeq(b[5], LAMBDA e : SizeOf(S, e) <= b[10][1])
           /\ b[2] = Only(S.nodes, Range(b[1])) /\ b[3] = [k \in DOMAIN b[2] |-> Degree(S, b[2][k])]
@@ -75,6 +82,8 @@ Verdict(r) ==
   \* a public view that disagrees with the tables it is a view of (members, memberships, ids, counts)
   IF r.viewanom # <<>> THEN <<"C06:" \o r.viewanom[1]>> ELSE
   IF r.postanom # <<>> THEN <<"tainted">> ELSE
+  \* an accessor of a view / statistic raised: reported as such (its placeholder value is not compared)
+  IF r.obs.errs # <<>> THEN <<"C06:raised." \o r.obs.errs[1]>> ELSE
   LET S == FromJ(r.post) IN
   \* an inconsistent network is some mutator's fault (C01-C03), but C06's own statement "the degrees sum to
   \* the sizes" speaks of every reachable state and needs no reference to the tables
